@@ -112,18 +112,24 @@ package parser
 //@ func (p *Parser) ParseAndEvaluate(eval EvaluateFunc) (*lr.Value, error)
 //@   requires sourceOK(p) && tablesOK() && eval != nil
 //@   requires forall j int :: {p.L.toks[j]} 0 <= j && j < len(p.L.toks) ==> p.L.toks[j].Terminal != grammar.Endmarker
+//
+// clientinv(): whatever invariant the caller keeps over its own state (e.g. its symbol table) between calls of
+// eval; it holds at entry, eval may rely on it and must re-establish it, nothing else touches that state.
+//@   requires clientinv()
 //@   modifies heap
 //@   callback eval frameless
 //@   callback eval provides 0 <= arg0 && arg0 < prodCount() && len(arg1) == prodLen(arg0)
-//@   cbinv d = nodes != nil && len(nodes.seq) == d && (forall j int :: {nodes.seq[j]} 0 <= j && j < d ==> nodes.seq[j] != nil)
+//@   callback eval provides clientinv() && (forall j int :: {arg1[j]} 0 <= j && j < len(arg1) ==> arg1[j] != nil)
+//@   callback eval ensures clientinv()
+//@   cbinv d = nodes != nil && len(nodes.seq) == d && (forall j int :: {nodes.seq[j]} 0 <= j && j < d ==> nodes.seq[j] != nil) && clientinv()
 //@   ensures result1 == nil ==> result0 != nil
 //@   ensures result1 != nil ==> result0 == nil
 
 //@ func (p *Parser) ParseAndEvaluate$1(token *lexer.Token) error
 //@   captures nodes != nil
-//@   requires token != nil
+//@   requires token != nil && clientinv()
 //@   modifies nodes.seq
-//@   ensures result == nil
+//@   ensures result == nil && clientinv()
 //@   ensures len(nodes.seq) == len(old(nodes.seq)) + 1
 //@   ensures forall j int :: {nodes.seq[j]} 0 <= j && j < len(old(nodes.seq)) ==> nodes.seq[j] == old(nodes.seq)[j]
 //@   ensures nodes.seq[len(old(nodes.seq))] != nil && fresh(nodes.seq[len(old(nodes.seq))])
@@ -134,7 +140,9 @@ package parser
 //@   captures nodes != nil && eval != nil
 //@   requires tablesOK() && 0 <= i && i < prodCount() && prodLen(i) <= len(nodes.seq)
 //@   requires forall j int :: {nodes.seq[j]} 0 <= j && j < len(nodes.seq) ==> nodes.seq[j] != nil
+//@   requires clientinv()
 //@   modifies nodes.seq
+//@   ensures clientinv()
 //@   callback eval requires arg0 == old(i) && len(arg1) == prodLen(old(i))
 //@   callback eval requires forall j int :: {arg1[j]} 0 <= j && j < prodLen(old(i)) ==> arg1[j] == old(nodes.seq)[len(old(nodes.seq)) - prodLen(old(i)) + j]
 //@   callback eval requires len(nodes.seq) == len(old(nodes.seq)) - prodLen(old(i))
@@ -150,3 +158,13 @@ package parser
 //@   ensures result == nil ==> nodes.seq[len(nodes.seq) - 1].Val == lastres(eval)
 //@   ensures result == nil && prodLen(i) > 0 ==> nodes.seq[len(nodes.seq) - 1].Pos == old(nodes.seq)[len(old(nodes.seq)) - prodLen(i)].Pos
 //@   ensures result == nil && prodLen(i) == 0 ==> nodes.seq[len(nodes.seq) - 1].Pos == nil
+
+// New: the scanner behind the parser is an abstract token source (p.L.toks, then p.L.endErr). That a real
+// ebnflexer.Lexer behaves like one and never delivers the end marker as a token is assumed here (A-SOURCE);
+// what it delivers is the subject of C05.
+//@ func New(filename string, src io.Reader) (*Parser, error)
+//@   assumed
+//@   fresh-result
+//@   ensures result1 == nil ==> result0 != nil && sourceOK(result0)
+//@   ensures result1 == nil ==> (forall j int :: {result0.L.toks[j]} 0 <= j && j < len(result0.L.toks) ==> result0.L.toks[j].Terminal != grammar.Endmarker)
+//@   ensures result1 != nil ==> result0 == nil
